@@ -76,6 +76,33 @@ pub fn shim_b64_decode(engine: &base64::engine::general_purpose::GeneralPurpose,
     engine.decode(s)
 }
 
+/// text of `general_purpose::STANDARD_NO_PAD.encode(b)` (uninterpreted function of the bytes)
+pub uninterp spec fn b64_encode_spec(b: Seq<u8>) -> Seq<char>;
+
+/// R2 shim for `general_purpose::STANDARD_NO_PAD.encode(b)` (`base64::Engine::encode`: "Encode arbitrary octets as base64", total)
+#[verifier::external_body]
+pub fn shim_b64_encode_standard_no_pad(b: &[u8]) -> (r: String)
+    ensures
+        r@ == b64_encode_spec(b@),
+{
+    use base64::Engine;
+    base64::engine::general_purpose::STANDARD_NO_PAD.encode(b)
+}
+
+/// text of `format!("${}$v={}$m={},t={},p=1${}${}", name, v, m, t, salt, hash)`: an uninterpreted function of the six arguments
+/// (ASSUMPTION: `format!` is total and its result depends only on the displayed values, in this order)
+pub uninterp spec fn fmt_pwhash_spec(name: Seq<char>, v: u32, m: u32, t: u32, salt: Seq<char>, hash: Seq<char>) -> Seq<char>;
+
+/// R2 shim for exactly that `format!` invocation (the rewrite pattern contains the literal format string: a changed
+/// format string no longer matches and the unit becomes undecided)
+#[verifier::external_body]
+pub fn shim_format_pwhash(name: &str, v: u32, m: u32, t: u32, salt: String, hash: String) -> (r: String)
+    ensures
+        r@ == fmt_pwhash_spec(name@, v, m, t, salt@, hash@),
+{
+    format!("${}$v={}$m={},t={},p=1${}${}", name, v, m, t, salt, hash)
+}
+
 // ---- str ------------------------------------------------------------------------------------------------------------------
 /// the items `s.split(c)` yields, in order (uninterpreted)
 pub uninterp spec fn str_split_spec<'a>(s: &'a str, c: char) -> Seq<&'a str>;
